@@ -23,3 +23,30 @@ Theorem expansion_ignores_spacing_of_generated_tokens :
   forall e e' : rexpr, e = e' -> print e = print e'.
 Proof. intros e e' ->. reflexivity. Qed.
 Print Assumptions expansion_ignores_spacing_of_generated_tokens.
+
+(* OBLIGATION history_position_and_neighbours_are_irrelevant *)
+(* the shape the `history` family samples, for every history: expand two arbitrary histories (any length, any order, any other
+   invocations before, between and after); wherever the same invocation occurs - at any position of either - it got the same expansion *)
+Definition expand_history (h : list (config * input)) : list ((config * input) * res (list string)) :=
+  map (fun ci => (ci, expansion (fst ci) (snd ci))) h.
+
+Theorem history_position_and_neighbours_are_irrelevant :
+  forall (h1 h2 : list (config * input)) ci o1 o2,
+    In (ci, o1) (expand_history h1) -> In (ci, o2) (expand_history h2) -> o1 = o2.
+Proof.
+  intros h1 h2 ci o1 o2 H1 H2. unfold expand_history in *.
+  apply in_map_iff in H1. destruct H1 as [x1 [E1 _]]. apply in_map_iff in H2. destruct H2 as [x2 [E2 _]].
+  inversion E1; subst. inversion E2; subst. reflexivity.
+Qed.
+Print Assumptions history_position_and_neighbours_are_irrelevant.
+
+(* OBLIGATION history_expansion_is_compositional *)
+(* expanding a history is expanding its parts: no invocation leaves anything behind for a later one *)
+Theorem history_expansion_is_compositional :
+  forall h1 h2 : list (config * input), expand_history (h1 ++ h2) = expand_history h1 ++ expand_history h2.
+Proof. intros h1 h2. unfold expand_history. apply map_app. Qed.
+Print Assumptions history_expansion_is_compositional.
+
+(* non-vacuity: a two-invocation history has two entries *)
+Example history_nonvacuous : forall c i, Datatypes.length (expand_history ((c, i) :: (c, i) :: nil)) = 2.
+Proof. reflexivity. Qed.
